@@ -74,6 +74,7 @@ func (c *Cell) Update() {
 	case string:
 		c.str = o
 	case rune:
+		c.str = string(o)
 	case Stringer:
 		c.str = o.String()
 	case GoStringer:
